@@ -40,6 +40,17 @@ type vService struct {
 
 var vSlim = false
 
+// vMutField: the mutation root field some services declare: m__p, or a field of the Relay shape
+// node(id: ID!): Node (the entry point convention concerns Query only)
+var vMutNode = false
+
+func vMutName() string {
+	if vMutNode {
+		return "node"
+	}
+	return "m__p"
+}
+
 // vPlain: the descriptor slice with plain types that carry an id field and input fields with defaults
 var vPlain = false
 
@@ -173,7 +184,11 @@ func (s vService) sdl() string {
 		b.WriteString("scalar T\n")
 	}
 	if s.mut {
-		b.WriteString("type Mutation { m__p: Int }\n")
+		if vMutNode {
+			b.WriteString("type Mutation { node(id: ID!): Node }\n")
+		} else {
+			b.WriteString("type Mutation { m__p: Int }\n")
+		}
 	}
 	if s.noroot {
 		b.WriteString("type Query { node(id: ID!): Node }\n")
@@ -364,8 +379,10 @@ func vPickServices() []vService {
 	// which services declare Mutation.m__p: none, the first, the first and the last (with a service
 	// without any Mutation type in between when there are three), the last two
 	mutpat := 0
+	vMutNode = false
 	if vSlim {
 		mutpat = verifChoice("mutpat", 4)
+		vMutNode = mutpat != 0 && verifChoice("mutnode", 2) == 1
 	}
 	for i := range svcs {
 		tag := "s" + verifItoa(i)
@@ -480,7 +497,7 @@ func VerifMerge() {
 				verifAssert(sc.Types["Query"].Fields.ForName("du__p") != nil, "every root field of every service is in the gateway schema (du__p)")
 			}
 			if s.mut {
-				verifAssert(sc.Types["Mutation"] != nil && sc.Types["Mutation"].Fields.ForName("m__p") != nil, "every root field of every service is in the gateway schema (Mutation.m__p)")
+				verifAssert(sc.Types["Mutation"] != nil && sc.Types["Mutation"].Fields.ForName(vMutName()) != nil, "every root field of every service is in the gateway schema (Mutation."+vMutName()+")")
 			}
 			if t.kind == "" {
 				continue
@@ -602,8 +619,8 @@ func VerifMerge() {
 			verifAssert(okd && ud == "svc"+verifItoa(s.idx), "every root field is routed to the service that declared it (du__p)")
 		}
 		if s.mut {
-			um, okm := tm.Get("Mutation", "m__p")
-			verifAssert(okm && um == "svc"+verifItoa(s.idx), "every root field is routed to the service that declared it (Mutation.m__p)")
+			um, okm := tm.Get("Mutation", vMutName())
+			verifAssert(okm && um == "svc"+verifItoa(s.idx), "every root field is routed to the service that declared it (Mutation."+vMutName()+")")
 		}
 		if s.t.kind == "object" {
 			for _, f := range s.t.fields {
